@@ -190,7 +190,7 @@ func c10Positions() []c10Pos {
 	addL := func(ep, pos string, invk []string, lv []c10Level, reach c10Reach, lang string, text func(v string) string, mk func(q string) *c10Req) {
 		ps = append(ps, c10Pos{Endpoint: ep, Pos: pos, Inv: invk, Mk: func(v string) *c10Req { return mk(text(v)) }, Levels: lv, Reach: reach, Lang: lang, Text: text})
 	}
-	identLv := []c10Level{{Class: clFull, Loose: true}, {Class: clIdent, Ident: true}}
+	identLv := []c10Level{{Class: clFull, Loose: true}, {Class: clIdent, Ident: true}, {Class: clIdentEdge, Loose: true}}
 	loose := []c10Level{{Class: clFull, Loose: true}}
 
 	// =========================================================================================== LogQL
